@@ -25,11 +25,11 @@ Qed.
 Lemma insert_ri_In x l y : In y (insert_ri x l) <-> y = x \/ In y l.
 Proof.
   induction l as [|z l IH]; cbn [insert_ri In]; [intuition|].
-  destruct (Nat.ltb (ri_l x) (ri_l z)); cbn [In]; [intuition|]. rewrite IH. intuition.
+  destruct (Nat.leb (ri_l x) (ri_l z)); cbn [In]; [intuition|]. rewrite IH. intuition.
 Qed.
 
 Lemma insert_ri_length x l : length (insert_ri x l) = S (length l).
-Proof. induction l as [|z l IH]; cbn [insert_ri length]; [reflexivity|]. destruct (Nat.ltb _ _); cbn [length]; auto. Qed.
+Proof. induction l as [|z l IH]; cbn [insert_ri length]; [reflexivity|]. destruct (Nat.leb _ _); cbn [length]; auto. Qed.
 
 Lemma sort_ris_In l y : In y (sort_ris l) <-> In y l.
 Proof.
